@@ -245,3 +245,18 @@ pub fn model_sort_by_key<T, K: Ord, F: FnMut(&T) -> K>(s: &mut [T], mut f: F) {
         i += 1;
     }
 }
+
+/// `Result::unwrap` without the cost: unwrap()'s failure path formats and drops the crate's Error
+/// (a Vec<(&str, String)> whose drop glue alone unrolled 800+ loop iterations in symbolic execution).
+pub fn expect_ok<T>(r: Result<T, crate::error::Error>, _msg: &'static str) -> T {
+    match r {
+        Ok(v) => v,
+        Err(e) => {
+            core::mem::forget(e);
+            // (Kani requires a literal message; the caller's text says which image it was)
+            kani::assert(false, "a valid image was rejected by deserialize (see the expect_ok call site)");
+            kani::assume(false);
+            loop {}
+        }
+    }
+}
